@@ -11,7 +11,13 @@ from sa.rules.C04 import Ownership
 EXPLANATION = (
     "Decided (structural, all paths): (1) active-segment typestate of DownloadNode: every function that retires the "
     "active SegmentFetcher (fetch_failed, the addBoth callback of process_blocks, _cancel_request after stop()) "
-    "reaches its normal exit only after `self._active_segment = None` followed by _start_new_segment(); fetch_failed "
+    "reaches its normal exit only after `self._active_segment = None` followed by _start_new_segment() - except that an "
+    "exit of the process_blocks callback is exempt (here and in 5) exactly on paths that passed `self._active_segment is "
+    "not X`, X read from _active_segment by process_blocks before the Deferred was set up (C04's Ownership model: "
+    "identity / negated identity / != against a pre-gap capture, also via a flag or a one-line helper; the cancel path has "
+    "then already retired that fetcher, removed its requests and started the next); an early return behind an unrelated "
+    "test, `is None` alone or a value read inside the callback is still reported, and the Failure case must get through "
+    "on the path that still owns the slot; fetch_failed "
     "has a normal path for the fetcher that IS the active one, and the process_blocks callback has a path for a Failure "
     "that does not unpack it like a segment; _cancel_request keeps every queued request except the cancelled one; "
     "get_segment queues the request and then calls _start_new_segment(); _start_new_segment installs a fetcher only "
@@ -40,12 +46,13 @@ EXPLANATION = (
     "also contain clauses whose violation ends in a wrong not-enough-shares error rather than a hang (COMPLETE stores "
     "the block, OVERDUE enters the overdue map, add_shares keeps the shares, the sent_something flag); they are "
     "reported under C46.6 too because the rules are adopted whole. Undecided: progress under arbitrary schedules (that "
-    "the chosen shares eventually answer), the byte ranges a Share requests (a Share asking for the wrong range never "
+    "the chosen shares eventually answer), a completion guard hidden in a helper that is not a single `return <test>` "
+    "(ANALYSIS-ERROR, not a violation), the byte ranges a Share requests (a Share asking for the wrong range never "
     "completes its block), by how much _got_segment reduces _size, which segment number _start_new_segment / "
     "_fetch_next choose, the per-server-limit comparison of _find_and_use_share, None-dereferences and other "
     "exceptions raised by calls the CFG does not model as raising (e.g. a deleted local that turns into a NameError "
     "before the reset).")
-TECHNIQUE = "static analysis: CFG x typestate monitors (reset/restart, stop/report), must-pass path queries, per-path edge-fact sets (what a waiting fetcher knows), normal-form comparison of queue filters, Deferred chain order"
+TECHNIQUE = "static analysis: CFG x typestate monitors (reset/restart, stop/report; completion exits excused on identity-test edges against pre-gap captures of _active_segment), must-pass path queries, per-path edge-fact sets (what a waiting fetcher knows), normal-form comparison of queue filters, Deferred chain order"
 
 NODE = "immutable.downloader.node:DownloadNode"
 FETCH = "immutable.downloader.fetcher:SegmentFetcher"
